@@ -172,6 +172,34 @@ func runC03(c *core.Ctx, ck *Check) {
 					}
 				}
 				vals = append(vals, gen.EncodingNums...)
+				// carry sweep: an earlier component one larger in b, a LATER component of a equal to 2^e-1 / 2^e / 2^e+1
+				// (e = 8..31) and 0 in b, everything after it smaller in b: a carry out of a packed field, or a
+				// truncated field, must not outweigh the earlier component
+				for pos := 0; pos < arity-1; pos++ {
+					for later := pos + 1; later < arity; later++ {
+						for ex := 8; ex <= 31; ex++ {
+							for d := int64(-1); d <= 1; d++ {
+								n := int64(1)<<ex + d
+								if n > 1<<31-1 {
+									continue
+								}
+								a, b := make([]string, arity), make([]string, arity)
+								for x := range a {
+									a[x], b[x] = "1", "1"
+									if x > later {
+										a[x], b[x] = "5", "3"
+									}
+								}
+								a[pos], b[pos] = "1", "2"
+								a[later], b[later] = strconv.FormatInt(n, 10), "0"
+								as, bs := strings.Join(a, "."), strings.Join(b, ".")
+								w.Count("evaluations", 1)
+								w.Count("carry_sweep_pairs", 1)
+								rep(evalC03(c, e, "tuple-order", []string{as, bs}))
+							}
+						}
+					}
+				}
 				for pos := 0; pos < arity; pos++ {
 					for _, v := range vals {
 						n, _ := strconv.ParseInt(v, 10, 64)
@@ -219,10 +247,20 @@ func runC03(c *core.Ctx, ck *Check) {
 						b[pos] = strconv.FormatInt(n+1, 10)
 						later := pos + 1 + r.IntN(arity-pos-1)
 						a[later] = []string{"2147483647", "65536", "65535", "4294967295", "2147483648", "16777216", "1000000"}[r.IntN(7)]
+						if r.IntN(2) == 0 { // every power of two and its neighbours: 2^k-1, 2^k, 2^k+1 for k = 8..30
+							a[later] = strconv.FormatInt(int64(1)<<(8+r.IntN(23))+int64(r.IntN(3))-1, 10)
+						}
 						if a[later] == "4294967295" || a[later] == "2147483648" {
 							a[later] = "2147483647"
 						}
 						b[later] = []string{"0", "1", a[later]}[r.IntN(3)]
+						// the components after it: smaller in b half of the time (a carry out of a packed field must not be
+						// decided by what follows)
+						for x := later + 1; x < arity; x++ {
+							if r.IntN(2) == 0 {
+								a[x], b[x] = "5", "3"
+							}
+						}
 					}
 				case 0: // equal
 				case 1, 2: // one component differs
